@@ -226,4 +226,441 @@ mod both {
             std::mem::forget(p);
         }
     }
+
+    // --------------------------------------------------------------------------------------------
+    // The async CLIENT methods. An `async fn` of AsyncCache is a state machine whose only suspension
+    // points are the `send(..).await` on the insert buffer / clear channel. async_channel's `Send`
+    // future first calls `Sender::try_send` and completes at once when that succeeds; `try_send`
+    // is replaced by the same bounded-FIFO contract as for crossbeam, so ONE poll with a no-op
+    // waker runs the whole method whenever the buffer has room (the case the harness sets up; a
+    // full buffer means "suspended until the processor takes an item", which is outside).
+    // --------------------------------------------------------------------------------------------
+    pub(crate) mod achan {
+        //! Under Kani: the bounded-FIFO contract behind `async_channel::Sender::try_send` (stub) and the
+        //! harness-side view of it. Natively (replay): the same questions asked of the real channel.
+        use async_channel::{Receiver, Sender, TrySendError};
+        pub const QMAX: usize = 2;
+        #[cfg(kani)]
+        static mut Q_PTR: [*mut u8; QMAX] = [std::ptr::null_mut(); QMAX];
+        #[cfg(kani)]
+        static mut Q_LEN: usize = 0;
+        #[cfg(kani)]
+        static mut U_LEN: usize = 0;
+        pub fn reset() {
+            #[cfg(kani)]
+            unsafe {
+                Q_LEN = 0;
+                U_LEN = 0;
+            }
+        }
+        /// number of items in the insert buffer
+        pub fn len<T>(_tx: &Sender<T>) -> usize {
+            #[cfg(kani)]
+            unsafe {
+                Q_LEN
+            }
+            #[cfg(not(kani))]
+            _tx.len()
+        }
+        /// make the insert buffer full (the filler items are never looked at)
+        pub fn fill<T>(_tx: &Sender<T>, mut _filler: impl FnMut() -> T) {
+            #[cfg(kani)]
+            unsafe {
+                Q_LEN = QMAX
+            }
+            #[cfg(not(kani))]
+            while _tx.try_send(_filler()).is_ok() {}
+        }
+        /// number of pending clear signals
+        pub fn signals(_rx: &Receiver<()>) -> usize {
+            #[cfg(kani)]
+            unsafe {
+                U_LEN
+            }
+            #[cfg(not(kani))]
+            _rx.len()
+        }
+        #[cfg(kani)]
+        pub fn try_send<T>(_s: &Sender<T>, msg: T) -> Result<(), TrySendError<T>> {
+            unsafe {
+                if std::mem::size_of::<T>() == 0 {
+                    U_LEN += 1;
+                    std::mem::forget(msg);
+                    return Ok(());
+                }
+                if Q_LEN >= QMAX {
+                    return Err(TrySendError::Full(msg));
+                }
+                Q_PTR[Q_LEN] = Box::into_raw(Box::new(msg)) as *mut u8;
+                Q_LEN += 1;
+                Ok(())
+            }
+        }
+        /// take the oldest queued item (harness side; the processor's recv loop is not run)
+        pub fn take<T>(_rx: &Receiver<T>) -> Option<T> {
+            #[cfg(kani)]
+            unsafe {
+                if Q_LEN == 0 {
+                    return None;
+                }
+                let p = Q_PTR[0];
+                Q_PTR[0] = Q_PTR[1];
+                Q_LEN -= 1;
+                Some(*Box::from_raw(p as *mut T))
+            }
+            #[cfg(not(kani))]
+            _rx.try_recv().ok()
+        }
+    }
+
+    /// futures::select! shuffles its array of futures before polling them (fairness); every select!
+    /// on the paths decided here has ONE future (plus `default`), for which the identity is the only
+    /// permutation. (The real shuffle seeds a thread-local xorshift from SipHash at first use.)
+    #[cfg(kani)]
+    pub(crate) fn shuffle_one<T>(slice: &mut [T]) {
+        assert!(slice.len() <= 1, "VERIF: select! over more than one future reached");
+    }
+
+    pub(crate) fn poll_once<F: std::future::Future>(f: F) -> Option<F::Output> {
+        let mut f = std::pin::pin!(f);
+        let mut cx = std::task::Context::from_waker(std::task::Waker::noop());
+        match f.as_mut().poll(&mut cx) {
+            std::task::Poll::Ready(x) => Some(x),
+            std::task::Poll::Pending => None,
+        }
+    }
+
+    pub(crate) type ACache = AsyncCache<u64, u64, crate::TransparentKeyBuilder<u64>, crate::verif_env::rec::TabCoster, NdValidator, RecCb, HS>;
+
+    /// the async cache wired as `AsyncCacheBuilder::finalize` wires it, around a parked processor
+    pub(crate) fn park_async_cache(store: Store, ents: [Option<(u64, i64)>; 3], ignore_internal_cost: bool, metrics_on: bool, buffer_items: usize) -> (ACache, AParked) {
+        let (buf_tx, buf_rx) = bounded::<Item<u64>>(2);
+        let (stop_tx, stop_rx) = stop_channel();
+        let (clear_tx, clear_rx) = unbounded::<()>();
+        let store = Arc::new(store);
+        let metrics = Arc::new(mrec::make(metrics_on));
+        let (policy, worker) = mk_policy_async(any_tinylfu(1, 6), slfu_from(ents, nd::any_i64_in(-COST_MAX, COST_MAX)), metrics.clone());
+        let policy = Arc::new(policy);
+        let callback = Arc::new(RecCb::new());
+        let proc_ = CacheProcessor::new(100000, ignore_internal_cost, Duration::from_millis(500), store.clone(), policy.clone(), buf_rx, stop_rx, clear_rx, metrics.clone(), callback.clone());
+        let coster = Arc::new(crate::verif_env::rec::TabCoster { tab: [1; NT], calls: std::sync::atomic::AtomicU8::new(0) });
+        let cache = AsyncCache {
+            store: store.clone(),
+            policy: policy.clone(),
+            get_buf: Arc::new(crate::ring::AsyncRingStripe::new(policy.clone(), buffer_items)),
+            insert_buf_tx: buf_tx,
+            callback: callback.clone(),
+            key_to_hash: Arc::new(crate::TransparentKeyBuilder::<u64>::default()),
+            stop_tx,
+            clear_tx,
+            is_closed: Arc::new(AtomicBool::new(false)),
+            coster,
+            metrics: metrics.clone(),
+            _marker: Default::default(),
+        };
+        std::mem::forget(worker);
+        achan::reset();
+        (cache, AParked { proc_, cb: callback, store, policy, metrics })
+    }
+
+    async_harness! {
+        [kani::unwind(6),
+         kani::stub(async_channel::Sender::try_send, achan::try_send)]
+        fn c19_async_client_remove() {
+            // AsyncCache::try_remove: the entry leaves the store at once, its value goes to on_exit
+            // once, and a Delete for (index, conflict) is queued WHETHER OR NOT the key was
+            // resident (an insert of that key may still be buffered) - as the sync remove does
+            let now = clock::set_nd(1000, th::SECS_MAX);
+            let mut a = if nd::any_bool() { Some(any_ent(now, 0, 4)) } else { None };
+            if let Some(x) = a.as_mut() {
+                x.val = 0;
+                x.conflict = 0;
+            }
+            let store = store_from(a, None, None, NdValidator::new(Some(true)));
+            let mut ents: [Option<(u64, i64)>; 3] = [None, None, None];
+            if let Some(x) = a {
+                ents[0] = Some((x.key, nd::any_i64_in(0, COST_MAX)));
+            }
+            let (cache, mut p) = park_async_cache(store, ents, nd::any_bool(), false, 64);
+            let k = nd::any_u64();
+            let before = raw(&p.store, k);
+            let r = poll_once(cache.try_remove(&k));
+            vassert!(matches!(r, Some(Ok(()))), "try_remove completes without suspending when the insert buffer has room");
+            vassert!(raw(&p.store, k).is_none(), "the key is gone from the store as soon as remove returns");
+            match before {
+                Some(e) => vassert!(p.cb.exits(e.val) == 1 && p.cb.all() == 1, "the removed value is handed to on_exit exactly once"),
+                None => vassert!(p.cb.all() == 0, "removing an absent key triggers no callback"),
+            }
+            vassert!(achan::len(&cache.insert_buf_tx) == 1, "remove queues exactly one item, also for a key that is not resident (a buffered insert of it may be pending)");
+            match achan::take(&p.proc_.insert_buf_rx) {
+                Some(Item::Delete { key, conflict }) => vassert!(key == k && conflict == 0, "the queued item is the Delete for that key's (index, conflict)"),
+                _ => vassert!(false, "the queued item is a Delete"),
+            }
+            vcover!(before.is_some(), "remove of a resident");
+            vcover!(before.is_none(), "remove of an absent key");
+            std::mem::forget(cache);
+            std::mem::forget(p);
+        }
+    }
+
+    #[cfg(kani)]
+    async_harness! {
+        [kani::unwind(6),
+         kani::stub(async_channel::Sender::try_send, achan::try_send),
+         kani::stub(crate::store::ShardedMap::try_remove, crate::store::verif_harness::storerec::try_remove)]
+        fn c19_async_client_remove_wiring() {
+            // AsyncCache::try_remove between a store recorder (found / not found as the solver
+            // chooses) and the FIFO contract: the store is asked once for (index, conflict), a found
+            // value goes to on_exit once, and a Delete is queued in BOTH cases
+            use crate::store::verif_harness::storerec as sr;
+            clock::set_nd(1000, th::SECS_MAX);
+            let store = store_from(None, None, None, NdValidator::new(Some(true)));
+            let (cache, p) = park_async_cache(store, [None, None, None], nd::any_bool(), false, 64);
+            sr::reset();
+            let k = nd::any_u64();
+            let r = poll_once(cache.try_remove(&k));
+            vassert!(matches!(r, Some(Ok(()))), "try_remove completes without suspending when the insert buffer has room");
+            unsafe {
+                vassert!(sr::REMOVES == 1 && sr::REM_KEYS[0] == k && sr::REM_CONFLICTS[0] == 0, "the store is asked once to remove exactly (index, conflict) of the key");
+                if sr::REM_FOUND[0] {
+                    vassert!(p.cb.exits(sr::REM_VALS[0]) == 1 && p.cb.all() == 1, "the removed value is handed to on_exit exactly once");
+                } else {
+                    vassert!(p.cb.all() == 0, "removing an absent key triggers no callback");
+                }
+                vassert!(achan::len(&cache.insert_buf_tx) == 1, "remove queues exactly one item, also for a key that is not resident (a buffered insert of it may be pending)");
+                match achan::take(&p.proc_.insert_buf_rx) {
+                    Some(Item::Delete { key, conflict }) => vassert!(key == k && conflict == 0, "the queued item is the Delete for that key's (index, conflict)"),
+                    _ => vassert!(false, "the queued item is a Delete"),
+                }
+                vcover!(sr::REM_FOUND[0], "found");
+                vcover!(!sr::REM_FOUND[0], "not found");
+            }
+            std::mem::forget(cache);
+            std::mem::forget(p);
+        }
+    }
+
+    async_harness! {
+        [kani::unwind(6)]
+        fn c19_async_client_insert() {
+            // AsyncCache::try_update (what insert / insert_with_ttl / insert_if_present run before
+            // the buffer send; a plain fn in both flavours) satisfies the assertions of the sync
+            // client_insert harness: immediate replacement, veto, conflict, what gets queued
+            let now = clock::set_nd(1000, th::SECS_MAX);
+            let mut a = if nd::any_bool() { Some(any_ent(now, 2, 4)) } else { None };
+            if let Some(x) = a.as_mut() {
+                x.val = 0;
+            }
+            let store = store_from(a, None, None, NdValidator::new(None));
+            let mut ents: [Option<(u64, i64)>; 3] = [None, None, None];
+            if let Some(x) = a {
+                ents[0] = Some((x.key, nd::any_i64_in(0, COST_MAX)));
+            }
+            let (cache, p) = park_async_cache(store, ents, nd::any_bool(), false, 64);
+            let k = nd::any_u64();
+            let before = raw(&p.store, k);
+            let charge_before = p.policy.cost(&k);
+            let cost = nd::any_i64_in(0, COST_MAX);
+            let d = any_duration(4);
+            let only_update = nd::any_bool();
+            let r = cache.try_update(k, 2, cost, d, only_update);
+            vassert!(r.is_ok(), "try_update does not fail");
+            let r = r.unwrap();
+            let after = raw(&p.store, k);
+            let vetoed = crate::store::verif_harness::validator_last(&p.store) == Some(false);
+            // TransparentKeyBuilder: conflict hash 0, which the store treats as matching any entry
+            let conflict_ok = before.is_some();
+            let ext = if cost == 0 { 1 } else { 0 };
+            if conflict_ok && !vetoed {
+                let e = after.unwrap();
+                vassert!(e.val == 2, "an insert of a resident key that is not vetoed replaces the value immediately");
+                vassert!(th::created(&e.exp) == now && th::ttl_of(&e.exp) == d, "re-inserting a resident key replaces its deadline (no TTL given: it no longer expires)");
+                vassert!(p.cb.exits(before.unwrap().val) == 1 && p.cb.all() == 1, "the replaced value is handed to on_exit exactly once");
+                match r {
+                    Some((idx, Item::Update { key, cost: c2, external_cost })) => {
+                        vassert!(idx == k && key == k && c2 == cost && external_cost == ext, "the queued Update carries the explicit cost, or the Coster's valuation when the cost is 0");
+                    }
+                    _ => {
+                        vassert!(false, "a replaced resident key queues an Update item");
+                    }
+                }
+                vcover!(cost == 0, "coster consulted");
+                vcover!(!d.is_zero() && before.unwrap().exp.is_zero(), "entry gains a TTL");
+            } else {
+                vassert!(after == before, "a vetoed insert, or an insert of an absent key, leaves the store exactly as it was (value and TTL)");
+                vassert!(p.cb.all() == 0, "no callback fires for a vetoed insert or an insert of an absent key");
+                match r {
+                    None => {
+                        vassert!(only_update, "only insert_if_present gives up without queuing");
+                    }
+                    Some((idx, Item::New { key, conflict, cost: c2, value, expiration })) => {
+                        vassert!(!only_update, "insert_if_present never queues a New item: it cannot create an entry");
+                        vassert!(idx == k && key == k && conflict == 0 && value == 2 && c2 == cost + ext, "the queued New item carries the explicit cost, or the Coster's valuation when the cost is 0");
+                        vassert!(th::created(&expiration) == now && th::ttl_of(&expiration) == d, "the queued New item carries the requested TTL");
+                    }
+                    _ => {
+                        vassert!(false, "an insert that did not replace anything queues a New item or nothing");
+                    }
+                }
+                vcover!(before.is_some() && vetoed, "vetoed");
+                vcover!(before.is_none() && only_update, "insert_if_present on an absent key");
+                vcover!(before.is_none() && !only_update, "plain insert of an absent key");
+            }
+            vassert!(p.policy.cost(&k) == charge_before, "the client call itself never changes the policy's charges");
+            std::mem::forget(r);
+            std::mem::forget(cache);
+            std::mem::forget(p);
+        }
+    }
+
+    async_harness! {
+        [kani::unwind(6),
+         kani::stub(async_channel::Sender::try_send, achan::try_send),
+         kani::stub(futures_util::async_await::shuffle, shuffle_one)]
+        fn c19_async_client_insert_send() {
+            // the whole async insert path (try_insert_in: closed test, try_update, select!{send,
+            // default}) while the insert buffer has room: whatever try_update decided to queue is
+            // queued exactly once and insert reports true; nothing is queued and false is reported
+            // when nothing is to be queued or the cache is closed
+            let now = clock::set_nd(1000, th::SECS_MAX);
+            let mut a = if nd::any_bool() { Some(any_ent(now, 0, 4)) } else { None };
+            if let Some(x) = a.as_mut() {
+                x.val = 0;
+            }
+            let store = store_from(a, None, None, NdValidator::new(None));
+            let mut ents: [Option<(u64, i64)>; 3] = [None, None, None];
+            if let Some(x) = a {
+                ents[0] = Some((x.key, nd::any_i64_in(0, COST_MAX)));
+            }
+            let (cache, p) = park_async_cache(store, ents, nd::any_bool(), false, 64);
+            let closed = nd::any_bool();
+            cache.is_closed.store(closed, Ordering::SeqCst);
+            let k = nd::any_u64();
+            let before = raw(&p.store, k);
+            let cost = nd::any_i64_in(1, COST_MAX);
+            let only_update = nd::any_bool();
+            let r = poll_once(cache.try_insert_in(k, 2, cost, Duration::ZERO, only_update));
+            vassert!(matches!(r, Some(Ok(_))), "an insert completes without suspending and without error while the buffer has room");
+            let ret = matches!(r, Some(Ok(true)));
+            let vetoed = crate::store::verif_harness::validator_last(&p.store) == Some(false);
+            if closed {
+                vassert!(!ret && achan::len(&cache.insert_buf_tx) == 0 && raw(&p.store, k) == before && p.cb.all() == 0, "an insert on a closed cache returns false and has no effect");
+            } else if before.is_some() && !vetoed {
+                vassert!(ret && achan::len(&cache.insert_buf_tx) == 1, "replacing a resident value reports true and queues one item");
+                vassert!(matches!(achan::take(&p.proc_.insert_buf_rx), Some(Item::Update { key, cost: c2, .. }) if key == k && c2 == cost), "the queued item is the Update for that key with the given cost");
+                vassert!(raw(&p.store, k).map(|e| e.val) == Some(2), "the value is replaced at once");
+            } else if only_update {
+                vassert!(!ret && achan::len(&cache.insert_buf_tx) == 0 && raw(&p.store, k) == before, "insert_if_present on an absent key, or vetoed, reports false, queues nothing and leaves the store as it was");
+            } else {
+                vassert!(ret && achan::len(&cache.insert_buf_tx) == 1, "an insert that replaced nothing reports true while the buffer has room, and queues one item");
+                vassert!(matches!(achan::take(&p.proc_.insert_buf_rx), Some(Item::New { key, conflict, cost: c2, value, .. }) if key == k && conflict == 0 && c2 == cost && value == 2), "the queued item is the New item for that key, value and cost");
+                vassert!(raw(&p.store, k) == before, "the store is left as it was until the item is processed");
+            }
+            vcover!(closed, "closed");
+            vcover!(!closed && before.is_some() && !vetoed, "update queued");
+            vcover!(!closed && before.is_some() && vetoed && !only_update, "vetoed insert goes the New way");
+            vcover!(!closed && before.is_none() && !only_update, "new queued");
+            std::mem::forget(r);
+            std::mem::forget(cache);
+            std::mem::forget(p);
+        }
+    }
+
+    async_harness! {
+        [kani::unwind(6),
+         kani::stub(async_channel::Sender::try_send, achan::try_send)]
+        fn c19_async_client_lookup() {
+            // AsyncCache::get / get_mut (one poll; buffer_items large enough that the access is
+            // only recorded in the ring): hit iff resident and not expired, the value of that key
+            let now = clock::set_nd(1000, th::SECS_MAX);
+            let mut a = if nd::any_bool() { Some(any_ent(now, 2, 4)) } else { None };
+            if let Some(x) = a.as_mut() {
+                x.conflict = 0;
+            }
+            let store = store_from(a, None, None, NdValidator::new(Some(true)));
+            let mut ents: [Option<(u64, i64)>; 3] = [None, None, None];
+            if let Some(x) = a {
+                ents[0] = Some((x.key, nd::any_i64_in(0, COST_MAX)));
+            }
+            let (cache, p) = park_async_cache(store, ents, nd::any_bool(), true, 64);
+            let closed = nd::any_bool();
+            cache.is_closed.store(closed, Ordering::SeqCst);
+            let k = nd::any_u64();
+            let before = raw(&p.store, k);
+            let visible = !closed && match before {
+                Some(e) => e.exp.is_zero() || now - th::created(&e.exp) < th::ttl_of(&e.exp),
+                None => false,
+            };
+            let mutable = nd::any_bool();
+            let (polled, hit, val) = if mutable {
+                match poll_once(cache.get_mut(&k)) {
+                    Some(Some(r)) => (true, true, *r.value()),
+                    Some(None) => (true, false, 0),
+                    None => (false, false, 0),
+                }
+            } else {
+                match poll_once(cache.get(&k)) {
+                    Some(Some(r)) => (true, true, *r.value()),
+                    Some(None) => (true, false, 0),
+                    None => (false, false, 0),
+                }
+            };
+            vassert!(polled, "a lookup completes without suspending");
+            vassert!(hit == visible, "an async lookup hits iff the cache is open and the key is resident with its TTL not elapsed");
+            if hit {
+                vassert!(val == before.unwrap().val, "an async lookup returns the value stored under that key");
+            }
+            vassert!(raw(&p.store, k) == before && p.cb.all() == 0 && achan::len(&cache.insert_buf_tx) == 0, "a lookup changes nothing and queues nothing");
+            if !closed {
+                vassert!(mrec::get(&p.metrics, MetricType::Hit) == hit as u64 && mrec::get(&p.metrics, MetricType::Miss) == (!hit) as u64, "every lookup on an open cache counts as exactly one hit or one miss");
+            }
+            vcover!(hit && mutable, "get_mut hit");
+            vcover!(hit && !mutable, "get hit");
+            vcover!(!closed && before.is_some() && !visible, "expired");
+            vcover!(closed, "closed");
+            std::mem::forget(cache);
+            std::mem::forget(p);
+        }
+    }
+
+    async_harness! {
+        [kani::unwind(6),
+         kani::stub(async_channel::Sender::try_send, achan::try_send),
+         kani::stub(crate::metrics::Metrics::clear, mrec::clear)]
+        fn c19_async_client_clear() {
+            // AsyncCache::clear: one clear signal is sent to the processor, then store and policy
+            // are emptied and the counters reset - as the sync clear does
+            let now = clock::set_nd(1000, th::SECS_MAX);
+            let a = if nd::any_bool() { Some(any_ent(now, 0, 4)) } else { None };
+            let store = store_from(a, None, None, NdValidator::new(Some(true)));
+            let mut ents: [Option<(u64, i64)>; 3] = [None, None, None];
+            if let Some(x) = a {
+                ents[0] = Some((x.key, nd::any_i64_in(0, COST_MAX)));
+            }
+            let (cache, p) = park_async_cache(store, ents, nd::any_bool(), true, 64);
+            let closed = nd::any_bool();
+            cache.is_closed.store(closed, Ordering::SeqCst);
+            let r = poll_once(cache.clear());
+            vassert!(matches!(r, Some(Ok(()))), "clear completes without suspending (the clear channel is unbounded)");
+            if closed {
+                vassert!(achan::signals(&p.proc_.clear_rx) == 0 && p.store.len() == (a.is_some() as usize), "clear on a closed cache has no effect");
+            } else {
+                vassert!(achan::signals(&p.proc_.clear_rx) == 1, "exactly one clear signal is sent to the processor");
+                vassert!(p.store.len() == 0, "the store is empty after clear");
+                if let Some(x) = a {
+                    vassert!(raw(&p.store, x.key).is_none() && !p.policy.contains(&x.key), "a key resident before clear is neither stored nor charged afterwards");
+                }
+                vassert!(p.cb.all() == 0, "clear itself hands nothing to the callbacks");
+            }
+            vcover!(!closed && a.is_some(), "clear of a non-empty cache");
+            vcover!(closed, "closed");
+            std::mem::forget(cache);
+            std::mem::forget(p);
+        }
+    }
+
+    // (A full-buffer variant - the send future not ready, select! taking its `default` arm, sets_dropped
+    // counted - was attempted: behind `try_send == Full` the future calls event-listener's
+    // `listen()`; CBMC's symbolic execution of that did not finish in 25 min. The default arm of the
+    // async insert path is therefore not decided.)
 }
